@@ -100,7 +100,7 @@ _STATE = {"today": None, "entered": 0}
 def setup_worker() -> None:
     import zorg.service.file_groups as fg
 
-    orig = fg.expand_file_group_paths
+    orig = fg.expand_file_group_paths  # the property's own observation point (public API)
     if contracts.AVAILABLE:
         ic = contracts.icontract
 
